@@ -410,6 +410,49 @@ func ruleC14_3(c *Ctx) {
 			// the sentinel must be wrapped, not replaced: it reaches errors.Join / fmt.Errorf / a return
 			c.Pass("C14.3", key, desc, c.P.ShortName(fn))
 		}
+		// the sentinel is produced only on the absent edge: every load of it is dominated by the absence test
+		for _, m := range []string{"Get", "Delete"} {
+			fn := c.methodOf(t, m)
+			if fn == nil {
+				continue
+			}
+			bad := ""
+			nl := 0
+			for _, f := range c.reachableFrom(fn) {
+				instrsOf(f, func(in ssa.Instruction) {
+					u, ok := in.(*ssa.UnOp)
+					if !ok {
+						return
+					}
+					g, ok := u.X.(*ssa.Global)
+					if !ok || g.Name() != "ErrNotExist" || g.Pkg.Pkg.Path() != c.A.driverPath {
+						return
+					}
+					nl++
+					guarded := false
+					for _, dc := range dominatingConds(u.Block()) {
+						// errors.Is(err, os.ErrNotExist) true edge, or the comma-ok of a map lookup false edge
+						if call, ok := dc.cond.(*ssa.Call); ok && callIsPkgFunc(&call.Call, "errors", "Is") && dc.onTrue {
+							guarded = true
+						}
+						if ex, ok := dc.cond.(*ssa.Extract); ok && !dc.onTrue {
+							if lk, ok := ex.Tuple.(*ssa.Lookup); ok && lk.CommaOk {
+								guarded = true
+							}
+						}
+					}
+					if !guarded {
+						bad = c.P.InstrPos(in) + ": driver.ErrNotExist is produced outside the absence test (missing file / map miss)"
+					}
+				})
+			}
+			key := fmt.Sprintf("not-exist-only-when-absent type=%s method=%s", t.Obj().Name(), m)
+			if bad != "" {
+				c.Fail("C14.3", key, "the not-exist error is reported only for an absent key", bad+"; a present key (e.g. with an empty value) would be reported absent while listing and Delete still see it")
+			} else if nl > 0 {
+				c.Pass("C14.3", key, "the not-exist error is reported only for an absent key", fmt.Sprintf("%s: %d uses", c.P.ShortName(fn), nl))
+			}
+		}
 		// file-system backend: the absent case is recognised through os.ErrNotExist / fs.ErrNotExist
 		if t.Obj().Pkg().Path() == c.A.fscachePath {
 			for _, m := range []string{"Get", "Delete"} {
@@ -462,6 +505,10 @@ func ruleC14_4(c *Ctx) {
 					}
 					if len(c.P.RepoCallees(y)) == 0 {
 						okKey = false // transformed by a library call
+					}
+				case *ssa.Extract:
+					if ec, ok := y.Tuple.(*ssa.Call); ok && len(c.P.RepoCallees(ec)) == 0 {
+						okKey = false // result of a library call (unescape, trim, ...)
 					}
 				case *ssa.BinOp:
 					okKey = false
